@@ -1,82 +1,77 @@
-import GenjaxModel.Model.Lowering
+import GenjaxModel.Proofs.LoweringR
 /-!
 # C14 — unseeded sampling can never be compiled into a fixed-randomness program
 
 `Model/Lowering.lean` is a *decision model* of JAX + pjax: for a placement (the list of
 constructs around one sampling site, outermost first) it says what calling it does, with and
-without `seed`. Its rules (i)–(vi) are assumptions about JAX that the check re-validates on every
-run by executing every placement up to depth 2/3 on the real libraries (rule (viii): `opaque` stands for
-jax.checkpoint / custom_jvp / custom_vjp, the higher-order primitives neither Seed nor modular_vmap interprets). The theorems below are
-about the model; they hold for placements of every depth.
+without `seed`. Its rules (i)–(ix) are assumptions about JAX that the check re-validates on every
+run by executing every placement up to depth 2/3 on the real libraries (`opaque` stands for
+jax.checkpoint, `customD` for custom_jvp / custom_vjp: the higher-order primitives neither Seed nor
+modular_vmap interprets). The theorems below are about the model; they hold for placements of every depth.
 `Cfg.spec` is what the property demands; `Cfg.asis` is the code today (two open findings).
+Helper lemmas (the same statements after `relocate`, and what `relocate` preserves) are in
+`Proofs/LoweringR.lean`.
 -/
 namespace Genjax.Lowering
 
-/-- helper: the interpreter of a modular_vmap that meets an opaque construct only ever raises -/
-theorem mvmapOpaque_raises (pl : List C) (o : Out) (h : mvmapOpaque pl = some o) :
-    o = .loweringError ∨ o = .batchError := by
-  induction pl with
-  | nil => simp [mvmapOpaque] at h
-  | cons c rest ih =>
-    simp only [mvmapOpaque] at h
-    split at h
-    · split at h <;> simp_all
-    · exact ih h
-
 /-- specification variant: no placement, of any depth, ends in a silent outcome -/
 theorem C14_no_silent_path_spec (pl : List C) :
-    (outcome Cfg.spec pl).ok = true ∧ (seeded Cfg.spec pl).ok = true := by
-  constructor
-  · simp only [outcome, Cfg.spec, Bool.false_and, Bool.false_eq_true, if_false]
-    split
-    · rename_i o h; rcases mvmapOpaque_raises _ o h with rfl | rfl <;> rfl
-    · repeat' split
-      all_goals rfl
-  · simp only [seeded, Cfg.spec, Bool.false_and, Bool.false_eq_true, if_false]
-    split
-    · rename_i o h; rcases mvmapOpaque_raises _ o h with rfl | rfl <;> rfl
-    · repeat' split
-      all_goals rfl
+    (outcome Cfg.spec pl).ok = true ∧ (seeded Cfg.spec pl).ok = true :=
+  C14_no_silent_path_spec_R (relocate false pl)
 
 /-- a site under any compiling construct (jit, scan, while_loop, fori_loop, cond, switch, nested
     jit, at any depth) raises: the lowering error, or the batch error if a plain vmap with batched
     site arguments is involved -/
 theorem C14_compile_raises_spec (pl : List C) (h : pl.any C.compiles = true) :
-    outcome Cfg.spec pl = .loweringError ∨ outcome Cfg.spec pl = .batchError := by
-  simp only [outcome, Cfg.spec, Bool.false_and, Bool.false_eq_true, if_false, h, if_true]
-  split
-  · rename_i o ho; rcases mvmapOpaque_raises _ o ho with rfl | rfl <;> simp
-  · split <;> simp
+    outcome Cfg.spec pl = .loweringError ∨ outcome Cfg.spec pl = .batchError :=
+  C14_compile_raises_spec_R (relocate false pl) (by rw [relocate_any_compiles]; exact h)
 
 /-- plain jax.vmap over a site raises instead of replicating one draw -/
 theorem C14_plain_vmap_raises_spec (pl : List C)
     (hv : pl.contains .vmapU = true ∨ pl.contains .vmapB = true) :
-    outcome Cfg.spec pl = .loweringError ∨ outcome Cfg.spec pl = .batchError := by
-  simp only [outcome, Cfg.spec, Bool.false_and, Bool.false_eq_true, if_false]
-  split
-  · rename_i o ho; exact mvmapOpaque_raises _ o ho
-  · repeat' split
-    all_goals simp_all
+    outcome Cfg.spec pl = .loweringError ∨ outcome Cfg.spec pl = .batchError :=
+  C14_plain_vmap_raises_spec_R (relocate false pl)
+    (by rw [relocate_contains_vmapU, relocate_contains_vmapB]; exact hv)
 
 /-- seed either yields a function of the key or raises; it yields a function of the key exactly
     when every construct around the site is one it interprets and no plain vmap is involved -/
 theorem C14_seed_total_spec (pl : List C) :
     seeded Cfg.spec pl = .keyFunction ∨ seeded Cfg.spec pl = .loweringError ∨
-      seeded Cfg.spec pl = .batchError := by
-  simp only [seeded, Cfg.spec, Bool.false_and, Bool.false_eq_true, if_false]
-  split
-  · rename_i o ho; rcases mvmapOpaque_raises _ o ho with rfl | rfl <;> simp
-  · repeat' split
-    all_goals simp
+      seeded Cfg.spec pl = .batchError :=
+  C14_seed_total_spec_R (relocate false pl)
 
 /-- The code as it is agrees with the specification on every placement without `grad` and without
     an unbatched plain vmap. `_partial`: the two side conditions carve out the open findings. -/
 theorem C14_asis_partial (pl : List C) (hg : hasGrad pl = false) (hu : pl.contains .vmapU = false) :
-    outcome Cfg.asis pl = outcome Cfg.spec pl ∧ seeded Cfg.asis pl = seeded Cfg.spec pl := by
-  have hu' : C.vmapU ∉ pl := by simpa using hu
-  simp only [outcome, seeded, Cfg.asis, Cfg.spec, hg, hu, Bool.and_false, Bool.false_and,
-    Bool.false_eq_true, if_false]
-  constructor <;> (repeat' split) <;> simp_all
+    outcome Cfg.asis pl = outcome Cfg.spec pl ∧ seeded Cfg.asis pl = seeded Cfg.spec pl :=
+  C14_asis_partial_R (relocate false pl) (relocate_no_grad pl hg)
+    (by rw [relocate_contains_vmapU]; exact hu)
+
+/-- rules (vii)/(viii), the behaviour two `fix:` commits established and the check replays on the code:
+    `seed` of a site wrapped in jax.checkpoint raises for every placement (it used to return a value that
+    ignored the key); so does a custom_jvp / custom_vjp wrapper unless a `grad` above it runs its rule -/
+theorem C14_opaque_seed_raises_spec (pl : List C) (h : pl.contains .opaque = true) :
+    seeded Cfg.spec pl = .loweringError ∨ seeded Cfg.spec pl = .batchError :=
+  C14_opaque_seed_raises_spec_R (relocate false pl)
+    (by simpa using relocate_opaque false pl (by simpa using h))
+
+/-- the same for the code as it is, when no differentiation is involved -/
+theorem C14_opaque_seed_raises_asis (pl : List C) (h : pl.contains .opaque = true)
+    (hg : hasGrad pl = false) (hu : pl.contains .vmapU = false) :
+    seeded Cfg.asis pl = .loweringError ∨ seeded Cfg.asis pl = .batchError := by
+  rw [(C14_asis_partial pl hg hu).2]; exact C14_opaque_seed_raises_spec pl h
+
+theorem C14_opaque_examples :
+    seeded Cfg.asis [.opaque] = .loweringError ∧ outcome Cfg.asis [.opaque] = .fresh ∧
+    seeded Cfg.asis [.customD] = .loweringError ∧
+    outcome Cfg.asis [.mvmap, .opaque] = .loweringError ∧ outcome Cfg.asis [.opaque, .mvmap] = .fresh ∧
+    outcome Cfg.asis [.mvmap, .vmapB, .opaque] = .batchError ∧
+    seeded Cfg.asis [.vmapB, .mvmap, .opaque] = .loweringError ∧
+    -- rule (ix): below a grad the custom rule runs inside the vmap, checkpoint stays opaque
+    seeded Cfg.asis [.grad, .vmapB, .customD] = .replicated ∧
+    seeded Cfg.asis [.grad, .vmapB, .opaque] = .batchError ∧
+    seeded Cfg.asis [.grad, .mvmap, .customD] = .loweringError := by
+  decide
 
 /-- proved counterexamples (replayed on the implementation by the check):
     jit∘grad bakes a key, seed∘grad ignores its key, plain vmap with unbatched site arguments
@@ -97,29 +92,6 @@ theorem C14_asis_grad_mvmap_jit_cex :
 
 theorem C14_asis_vmap_cex :
     outcome Cfg.asis [.vmapU] = .replicated ∧ outcome Cfg.spec [.vmapU] = .batchError := by
-  decide
-
-/-- rule (viii), the behaviour the two `fix:` commits established and the check replays on the code:
-    `seed` of a site wrapped in jax.checkpoint / custom_jvp / custom_vjp raises (it used to return a value that
-    ignored the key), so does modular_vmap over such a site (it used to share one draw between the lanes),
-    for every placement: an opaque construct anywhere makes `seed` raise unless differentiation inlines the site -/
-theorem C14_opaque_seed_raises_spec (pl : List C) (h : pl.contains .opaque = true) :
-    seeded Cfg.spec pl = .loweringError ∨ seeded Cfg.spec pl = .batchError := by
-  have hno : (pl.all fun c => c.seedInterprets || decide (c = .grad)) = false := by
-    rw [List.all_eq_false]
-    exact ⟨.opaque, by simpa using h, by decide⟩
-  simp only [seeded, Cfg.spec, Bool.false_and, Bool.false_eq_true, if_false]
-  split
-  · rename_i o ho; exact mvmapOpaque_raises _ o ho
-  · split
-    · simp
-    · simp [hno]
-
-theorem C14_opaque_examples :
-    seeded Cfg.asis [.opaque] = .loweringError ∧ outcome Cfg.asis [.opaque] = .fresh ∧
-    outcome Cfg.asis [.mvmap, .opaque] = .loweringError ∧ outcome Cfg.asis [.opaque, .mvmap] = .fresh ∧
-    outcome Cfg.asis [.mvmap, .vmapB, .opaque] = .batchError ∧
-    seeded Cfg.asis [.vmapB, .mvmap, .opaque] = .loweringError := by
   decide
 
 end Genjax.Lowering
